@@ -1,5 +1,5 @@
 """Shared framework for /verif/bin/check (Python 3 stdlib only)."""
-import fcntl, hashlib, json, os, re, subprocess, sys, time
+import fcntl, glob, hashlib, json, os, re, shutil, subprocess, sys, time
 
 VERIF = os.path.dirname(os.path.dirname(os.path.abspath(__file__)))
 REPO = os.environ.get("VERIF_REPO", "/repo")
@@ -79,9 +79,18 @@ class Ctx:
 
     # ------------------------------------------------------------------ build steps
     def gobuild(self, name):
-        """(re)build harness/cmd/<name> against /repo's working tree with the verif tag"""
+        """(re)build harness/cmd/<name> against REPO's working tree with the verif tag"""
         out = os.path.join(BIN, name)
-        rc, so, se, dt = sh(["go", "build", "-tags", "verif", "-o", out, "./cmd/" + name], cwd=HARNESS, env=GOENV)
+        cmd = ["go", "build", "-tags", "verif", "-o", out]
+        if REPO != "/repo":
+            # build against another checkout (scratch worktrees): same go.mod with the replace path substituted
+            mod = open(os.path.join(HARNESS, "go.mod")).read().replace("=> /repo", "=> " + REPO)
+            mf = os.path.join(WORK, "alt.mod")
+            if not os.path.exists(mf) or open(mf).read() != mod:
+                open(mf, "w").write(mod)
+            shutil.copyfile(os.path.join(HARNESS, "go.sum"), os.path.join(WORK, "alt.sum"))
+            cmd += ["-modfile", mf]
+        rc, so, se, dt = sh(cmd + ["./cmd/" + name], cwd=HARNESS, env=GOENV)
         self.cov["stages"]["gobuild_" + name] = round(dt, 1)
         if rc != 0:
             self.fail("infra", "go build " + name, se[-3000:])
@@ -222,10 +231,11 @@ class Ctx:
 
 
 def load_known():
-    p = os.path.join(VERIF, "known_findings.json")
-    if not os.path.exists(p):
-        return []
-    return json.load(open(p)).get("findings", [])
+    """known_findings/<Cnn>.json: {"findings": [ {id, property, status: known|fixed, check, input_class{feature: value}, what, ...} ]}"""
+    out = []
+    for p in sorted(glob.glob(os.path.join(VERIF, "known_findings", "*.json"))):
+        out += json.load(open(p)).get("findings", [])
+    return out
 
 
 def match_known(prop, failure, known):
@@ -368,3 +378,80 @@ def pred_search(ctx, prefix, n, only=None):
     ctx.cov["evaluations"] += len(lines)
     ctx.cov["stages"]["pred_eval_" + prefix] = {"cases": len(lines), "false": len(bad)}
     return bad
+
+
+# ---------------------------------------------------------------------- stateful correspondence (svh suite vs Lean driver suite)
+def corr(ctx, suite, n, extra_args=(), driver_suite=None, timeout=3000):
+    """Run `svh <suite>` on the real application, replay its `> ` lines on the Lean driver suite, diff the
+    observation lines, collect `! check FAIL` oracle verdicts. Returns dict(trace, mismatches, oracle_fails)."""
+    svh = ctx.gobuild("svh")
+    drv = ctx.driver() if driver_suite is not False else None
+    if not svh or (driver_suite is not False and not drv):
+        return None
+    cmd = [svh, "-seed", str(ctx.seed), "-n", str(n), "-tier", ctx.tier] + list(extra_args) + [suite]
+    try:
+        rc, so, se, dt = sh(cmd, timeout=timeout, env=dict(os.environ, GOMEMLIMIT="12GiB"))
+    except subprocess.TimeoutExpired:
+        ctx.fail("oracle", "harness timeout in suite " + suite, "svh did not finish in %ds" % timeout, check="hang",
+                 replay={"suite": suite, "seed": ctx.seed})
+        return None
+    if rc != 0:
+        ctx.fail("infra", "svh " + suite, (so[-1500:] + se[-1500:]))
+        return None
+    lines = so.splitlines()
+    ins = [l[2:] for l in lines if l.startswith("> ")]
+    obs = [(i, l) for i, l in enumerate(lines) if l and l[0] not in ">#!"]
+    oracle = [l for l in lines if l.startswith("! ")]
+    stats = {}
+    for l in lines:
+        if l.startswith("# stat "):
+            k, v = l[7:].split("=")
+            stats[k] = int(v)
+    res = {"trace": lines, "mismatches": [], "oracle_fails": [], "stats": stats}
+    if driver_suite is not False:
+        got = ctx.run_driver(drv, "suite %s\n" % (driver_suite or suite) + "\n".join(ins) + "\n")
+        for k, (i, l) in enumerate(obs):
+            g = got[k] if k < len(got) else "<missing>"
+            if g != l:
+                # context: the ops since the last reset
+                j = i
+                while j > 0 and not lines[j].startswith("> reset"):
+                    j -= 1
+                res["mismatches"].append({"line": i, "impl": l, "model": g, "history": [x for x in lines[j:i + 1] if x.startswith("> ")][-40:]})
+                break  # later lines depend on the diverged state
+        if len(got) != len(obs) and not res["mismatches"]:
+            res["mismatches"].append({"line": -1, "impl": "%d observation lines" % len(obs), "model": "%d lines" % len(got), "history": []})
+    for k, l in enumerate(lines):
+        if l.startswith("! ") and l.split()[2] == "FAIL":
+            j = k
+            while j > 0 and not lines[j].startswith("> reset"):
+                j -= 1
+            res["oracle_fails"].append({"check": l.split()[1], "detail": " ".join(l.split()[3:]),
+                                        "history": [x for x in lines[j:k + 1] if x.startswith("> ")][-60:]})
+    ctx.cov["evaluations"] += len(ins)
+    ctx.cov["distinct_nontrivial"] += len(set(ins))
+    ctx.cov["traces_validated_against_impl"] = ctx.cov.get("traces_validated_against_impl", 0) + sum(1 for l in ins if l.startswith("reset"))
+    ctx.cov["stages"]["corr_" + suite] = {"ops": len(ins), "observations": len(obs), "oracle_checks": len(oracle),
+                                          "mismatches": len(res["mismatches"]), "oracle_fails": len(res["oracle_fails"]),
+                                          "wall_s": round(dt, 1), "stats": stats}
+    ctx.cov["samples"] += [{"suite": suite, "trace_excerpt": lines[:6]}]
+    return res
+
+
+def report_corr(ctx, suite, res, known_features=None):
+    """Turn a corr() result into failures. known_features(fail) -> dict of features for known-finding matching."""
+    if res is None:
+        return
+    for m in res["mismatches"][:3]:
+        ctx.fail("correspondence", "model and implementation disagree in suite " + suite,
+                 "impl: %s | model: %s" % (m["impl"][:300], m["model"][:300]), replay=None)
+        ctx.last_mismatch = m
+    seen = set()
+    for f in res["oracle_fails"]:
+        feats = known_features(f) if known_features else {}
+        key = (f["check"], json.dumps(feats, sort_keys=True))
+        if key in seen:
+            continue
+        seen.add(key)
+        ctx.fail("oracle", "%s: %s" % (f["check"], f["detail"]), "", replay={"suite": suite, "seed": ctx.seed, "history": f["history"]},
+                 features=feats, check=f["check"])
